@@ -66,4 +66,5 @@ func c09(r *Run) {
 	escRuns(r, []string{"u", "l"}, []string{"urlEncode", "linkEscape"}, "urlencode")
 	regionRaw(r, r.N(1500, 40000))
 	escConcurrent(r, append(forms, &escForm{Name: "region", Tpl: "{% urlencode %}{%= v %}|{%= v %}{% endurlencode %}"}), r.N(4000, 100000))
+	modifierSpellings(r, []string{"urlEncode", "linkEscape", "ue", "le"}, "{% urlencode %}", "{% endurlencode %}")
 }
